@@ -11,6 +11,9 @@
       equalToleranceSmall of 0 by the uniform row (true, as first read) — getActionProbability / sampleAction have no such branch.
   smSubtractMax : the three QSoftmaxPolicyWrapper members exponentiate (q - max q)/T (true) or q/T (false, as first read).
 
+  esrlProbUsesFind : ESRLPolicy::getActionProbability finds the action among the (swap-and-pop'ed, hence unsorted)
+      allowed actions by linear search (true, as first read) or by bisection (false).
+
 Any other shape of these sites is a broken tie (ExtractError)."""
 import re
 import extract as X
@@ -18,6 +21,7 @@ import extract as X
 TH = 'src/Bandit/Policies/ThompsonSamplingPolicy.cpp'
 PR = 'src/Utils/Probability.cpp'
 SM = 'include/AIToolbox/Bandit/Policies/Utils/QSoftmaxPolicyWrapper.hpp'
+ES = 'src/Bandit/Policies/ESRLPolicy.cpp'
 
 
 def block_after(src, pos):
@@ -99,7 +103,30 @@ def softmax_shape():
     return small, shift, X.lineno(src, src.find('getPolicy(P && p) const'))
 
 
+def esrl_lookup():
+    """True: getActionProbability finds the action in allowedActions_ with std::find (linear scan, as first read);
+    False: with std::lower_bound + `*it != a` guard (bisection — only right on a sorted list).  stepUpdateP must use std::find."""
+    src = X.strip_comments(X.read(ES))
+    flat = re.sub(r'\s+', ' ', src)
+    m = X.find1(r'double ESRLPolicy::getActionProbability\(const size_t & a\) const \{', flat, 'ESRLPolicy::getActionProbability')
+    body = block_after(flat, m.end() - 1)
+    find = re.search(r'const auto it = std::find\(std::begin\(allowedActions_\), std::end\(allowedActions_\), a\); if \( ?it == std::end\(allowedActions_\) ?\) return 0\.0;', body)
+    lb = re.search(r'const auto it = std::lower_bound\(std::begin\(allowedActions_\), std::end\(allowedActions_\), a\); if \( ?it == std::end\(allowedActions_\) \|\| \*it != a ?\) return 0\.0;', body)
+    m2 = X.find1(r'void ESRLPolicy::stepUpdateP\(size_t a, bool result\) \{', flat, 'ESRLPolicy::stepUpdateP')
+    body2 = block_after(flat, m2.end() - 1)
+    if not re.search(r'const auto it = std::find\(std::begin\(allowedActions_\), std::end\(allowedActions_\), a\);', body2):
+        raise X.ExtractError('ESRLPolicy::stepUpdateP: action look-up has an unknown shape')
+    if not re.search(r'std::swap\(allowedActions_\[convergedActionLri\], allowedActions_\[allowedActions_\.size\(\) ?- ?1\]\); allowedActions_\.pop_back\(\);', body2):
+        raise X.ExtractError('ESRLPolicy::stepUpdateP: removal of the converged action is not swap-with-last + pop_back')
+    if find and not lb:
+        return True, X.lineno(src, src.find('ESRLPolicy::getActionProbability'))
+    if lb and not find:
+        return False, X.lineno(src, src.find('ESRLPolicy::getActionProbability'))
+    raise X.ExtractError('ESRLPolicy::getActionProbability: action look-up has an unknown shape')
+
+
 def gen_c09():
+    ef, efl = esrl_lookup()
     th, thl = thompson_init()
     pr, prl = project_shape()
     small, shift, sml = softmax_shape()
@@ -113,6 +140,8 @@ def gen_c09():
             f'def smPolicySmallSumUniform : Bool := {b(small)}',
             f'/-- {SM} — the softmax members exponentiate (q - max q)/T instead of q/T -/',
             f'def smSubtractMax : Bool := {b(shift)}',
+            f'/-- {ES}:{efl} — getActionProbability looks the action up with std::find (true) / std::lower_bound (false) -/',
+            f'def esrlProbUsesFind : Bool := {b(ef)}',
             '', 'end AITB.Gen.C09', '']
     X.write_if_changed('C09', '\n'.join(body))
 
